@@ -331,6 +331,36 @@ def run(repo, rep, tier):
     from . import cnative
     from .shared import contiguity
     cnative.statics(repo, rep, "R-C06-6")
+    rep.rule("R-C06-8", "coordinates are only re-labelled along spectral dimensions (or restored wholesale from the very object the data "
+                        "came from): re-labelling a batch dimension with another object's labels pairs spectra by storage position")
+    nac = 0
+    SPECT = {repo.attrs.FREQNAME, repo.attrs.DIRNAME}
+    for fi8 in repo.all_funcs():
+        if not (fi8.module.name in ("wavespectra.specarray", "wavespectra.core.utils", "wavespectra.core.xrstats", "wavespectra.partition.partition")):
+            continue
+        for c8 in ast.walk(fi8.node):
+            if not (isinstance(c8, ast.Call) and isinstance(c8.func, ast.Attribute) and c8.func.attr == "assign_coords"):
+                continue
+            nac += 1
+            ok8, why8 = False, ""
+            keys = []
+            if c8.keywords and not c8.args:
+                keys = [k.arg for k in c8.keywords]
+                ok8 = all(k in SPECT for k in keys if k) and None not in keys
+            elif len(c8.args) == 1 and isinstance(c8.args[0], ast.Dict):
+                keys = [repo.const(fi8.module, k) for k in c8.args[0].keys]
+                ok8 = all(isinstance(k, str) and k in SPECT for k in keys)
+            elif len(c8.args) == 1 and isinstance(c8.args[0], ast.Attribute) and c8.args[0].attr == "coords":
+                # wholesale restore: allowed from the function's own input object (labels and data have the same origin)
+                ok8 = isinstance(c8.args[0].value, ast.Name) and c8.args[0].value.id in fi8.params[:1]
+            if ok8:
+                rep.ok("R-C06-8", f"{fi8.file}:{c8.lineno} {fi8.short}", unparse(c8)[:80], "spectral dimension(s) only" if keys else "input's own coordinates restored")
+            else:
+                rep.fail("R-C06-8", fi8.file, c8.lineno, fi8.qualname, unparse(c8)[:110],
+                         "this re-labels dimensions that are not provably spectral (freq / dir) with labels taken from elsewhere: along time / site / ... "
+                         "label alignment turns into positional pairing, so each spectrum is combined with whatever sits at the same index",
+                         anchor=f"assign_coords:{fi8.short}")
+    rep.floor("R-C06-8", "assign_coords sites", nac, 5)
     rep.rule("R-C06-7", "(shared with C18) the accessor keeps no value derived from the data: a memo on the xarray-cached accessor "
                         "makes a spectrum's result depend on what the object held before an in-place edit, i.e. on other data than the spectrum itself")
     from ..effects import Engine
